@@ -186,6 +186,25 @@ func report(spec *Spec, id, tier string, seed int, results []*HarnessResult, kno
 	nConfirmed, nUnconfirmed := 0, 0
 	vacuous := false
 	machineryErr := false
+	// cover points of a sharded harness are reached if any shard reaches them
+	groupCov := map[string]map[string]int{}
+	for _, r := range results {
+		g := r.Name
+		if i := strings.IndexByte(g, '#'); i >= 0 {
+			g = g[:i]
+		}
+		if groupCov[g] == nil {
+			groupCov[g] = map[string]int{}
+		}
+		for k, v := range r.Covers {
+			groupCov[g][k] += v
+		}
+	}
+	for _, r := range results {
+		if i := strings.IndexByte(r.Name, '#'); i >= 0 {
+			r.Covers = groupCov[r.Name[:i]]
+		}
+	}
 	for _, r := range results {
 		paths += r.Paths
 		instrs += r.Instrs
